@@ -15,7 +15,7 @@ import json
 
 from harness import common
 
-MODULES = ['CirqVerif.Props.C05']
+MODULES = ['CirqVerif.Props.C05', 'CirqVerif.Props.C05Concat']
 STRATS = ['earliest', 'new', 'inline', 'new_then_inline', 'latest']
 NQ = 4
 KEYS = 2
@@ -566,6 +566,44 @@ def check_concat_and_moments(ctx, w):
                 ctx.report_witness(f'spec:{name}:concat_ragged', f'concat_ragged violates {name}', {'lines': [{'c1': repr(c1), 'c2': repr(c2), 'align': str(align)}], 'impl_out': [repr(out)[:2500]], 'spec_out': [so],
                                                                                                    'theorem_or_correspondence': f'specPlace.{name}'})
                 break
+    # the moment layout itself: every entry point of concat_ragged against the Lean model (Model/C05Concat; Props/C05Concat proves the
+    # model conserves operations, orders shared wires, stays well-formed and overlaps maximally)
+    reqs, meta = [], []
+    for it in range(n):
+        g = Gen(rng)
+        k = rng.choice([2, 2, 2, 3, 3, 4, 1])
+        cs = []
+        for _ in range(k):
+            ms = [g.moment() for _ in range(rng.randint(0, 4))]
+            if rng.random() < 0.3 and ms:
+                ms.insert(rng.randrange(len(ms) + 1), [])  # empty moments count as length
+            cs.append(cirq.Circuit([cirq.Moment([w.op(o) for o in m]) for m in ms]))
+        align = rng.choice([cirq.Alignment.LEFT, cirq.Alignment.RIGHT, cirq.Alignment.FIRST])
+        reqs.append({'p': 'C05', 'op': 'concat', 'circuits': [w.circuit_desc(c) for c in cs], 'align': align.name.lower()})
+        meta.append((cs, align))
+    for (cs, align), want in zip(meta, ctx.driver.ask(reqs)):
+        frozen = [c.freeze() for c in cs]
+        spell = rng.choice([align, align.name.lower(), align.name])  # the option is documented as an Alignment or its name
+        ways = {
+            'Circuit.concat_ragged': lambda: cirq.Circuit.concat_ragged(*cs, align=spell),
+            'Circuit.concat_ragged(frozen)': lambda: cirq.Circuit.concat_ragged(*frozen, align=spell),
+            'FrozenCircuit.concat_ragged': lambda: cirq.FrozenCircuit.concat_ragged(*frozen, align=spell),
+            'FrozenCircuit.concat_ragged(mixed)': lambda: cirq.FrozenCircuit.concat_ragged(*[f if i % 2 else c for i, (c, f) in enumerate(zip(cs, frozen))], align=spell),
+            'circuit.concat_ragged(bound)': lambda: cs[0].concat_ragged(*cs[1:], align=spell),
+            'frozen.concat_ragged(bound)': lambda: frozen[0].concat_ragged(*frozen[1:], align=spell),
+        }
+        ctx.case(['concat-layout', [repr(c) for c in cs], str(align)], len(cs) >= 2 and all(len(c) for c in cs))
+        for name, f in ways.items():
+            ctx.count('call', 'concat-layout:' + name)
+            rep = {'lines': [{'circuits': [repr(c) for c in cs], 'align': str(spell), 'entry_point': name}], 'theorem_or_correspondence': 'Model.C05.concatRagged'}
+            try:
+                out = f()
+            except Exception as e:  # noqa: BLE001
+                ctx.report_witness(f'concat:{name.split("(")[0]}:raises', 'concat_ragged raises on well-formed circuits', dict(rep, impl_out=[f'{type(e).__name__}: {e}'[:300]], spec_out=[want]))
+                continue
+            got = [sorted(w.desc(o)['id'] for o in m.operations) for m in out.moments]
+            if got != want:
+                ctx.report_witness(f'concat:layout:{name.split("(")[0]}', 'the moment layout of concat_ragged differs from the model (alignment / overlap)', dict(rep, impl_out=[got], spec_out=[want]))
     # moment entry points
     q = w.qs
     for _ in range(n):
